@@ -31,6 +31,7 @@ type histProfile struct {
 	Scripts         bool       // insert a focused per-validator action sequence (one validator, one action per block)
 	Batches         bool       // insert blocks in which several validators perform the same action together
 	ScriptTemplates [][]string // when set: the validator script always uses one of these action sequences ("x!" = short time step before x, "burn1" = burn request of 100%)
+	HugeBalances    bool       // some accounts hold balances just below 2^63 (sums then cross the int64 range)
 	MinSigned       []string   // when set: choices for MinSignedPerWindow
 	OwnerBias       int        // N>0: governance messages are sent by the current owner (resolved at execution) in N of N+1 cases
 	Anchor          bool       // in half of the histories one genesis validator is never accused, absent, unstaked or burned, so that the set rarely empties
@@ -76,6 +77,9 @@ func genGenesis(t *rapid.T, pr *histProfile) hGenesis {
 			bal = g.StakeMinimum + int64(rapid.IntRange(-300, 1000).Draw(t, "nearmin"))
 		default:
 			bal = rapid.Int64Range(1000000, 1000000000000).Draw(t, "bigbal")
+		}
+		if pr.HugeBalances && rapid.IntRange(0, 5).Draw(t, "hugebal") == 0 {
+			bal = 9223372036854775807 - int64(rapid.IntRange(0, 3000000).Draw(t, "hugegap"))
 		}
 		g.Accounts = append(g.Accounts, hGenAcc{Key: k, Balance: bal, NoPub: rapid.IntRange(0, 9).Draw(t, "nopub") == 0})
 	}
